@@ -39,6 +39,7 @@ def n_cases(tier):
 
 
 DELAYS = {}
+SETTLE = {}
 
 
 def jitter(x):
@@ -236,7 +237,7 @@ def _build_local_async(case, sink):
     return a, b
 
 
-async def run_dask(case, expect_n, patient=False):
+async def run_dask(case, expect_n, patient=False, expect_counts=None):
     from tornado.ioloop import IOLoop
     got = []
     a, b = build(case, True, make_sink(case, got))
@@ -252,6 +253,13 @@ async def run_dask(case, expect_n, patient=False):
         if len(got) != n_last:          # still making progress
             n_last, t_last = len(got), time.time()
     await asyncio.sleep(0.1)       # anything extra would show up now
+    if expect_counts is not None and len(got) == expect_n:
+        # the releases behind the last result happen a few loop turns (and, on a loaded machine, an arbitrary amount of wall
+        # clock) later: the verdict is on the counts the twin settles at, so give them up to 5 s to get there
+        t1 = time.time()
+        while [r.count for r in refs] != expect_counts and time.time() - t1 < 5:
+            await asyncio.sleep(0.02)
+        SETTLE['late'] = SETTLE.get('late', 0) + (1 if time.time() - t1 > 0.01 else 0)
     return got, refs
 
 
@@ -271,12 +279,12 @@ async def shard_main(seed, tier, shard, out):
             stop_after = False
             try:
                 lgot, lrefs = await asyncio.wait_for(run_local(case), 30)
-                dgot, drefs = await asyncio.wait_for(run_dask(case, len(lgot)), 60)
+                dgot, drefs = await asyncio.wait_for(run_dask(case, len(lgot), expect_counts=[r.count for r in lrefs]), 60)
                 if len(dgot) < len(lgot):
                     # nothing arrived for 4 s: run the twin once more and give it the full 20 s before calling results lost
                     ssinks._global_sinks.clear()
                     C['patient_reruns'] = C.get('patient_reruns', 0) + 1
-                    dgot, drefs = await asyncio.wait_for(run_dask(case, len(lgot), patient=True), 60)
+                    dgot, drefs = await asyncio.wait_for(run_dask(case, len(lgot), patient=True, expect_counts=[r.count for r in lrefs]), 60)
                     stop_after = len(dgot) < len(lgot)
             except asyncio.TimeoutError:
                 out['inconclusive'].append('case %d: watchdog' % k)
@@ -287,6 +295,7 @@ async def shard_main(seed, tier, shard, out):
             finally:
                 ssinks._global_sinks.clear()
             C['twin_sequences_compared'] = C.get('twin_sequences_compared', 0) + 1
+            C['dask_counters_settled_only_after_the_grace_period'] = SETTLE.get('late', 0)
             ln, dn = [_norm(x) for x in lgot], [_norm(x) for x in dgot]
             if ln != dn:
                 if sorted(map(repr, ln)) == sorted(map(repr, dn)):
